@@ -19,6 +19,7 @@ func init() {
 		func(t *vcTrial) { vpRunKernel(t, 300, "unix") }, // crosses the 128 -> 256 -> 512 event array growth
 		vpRunHupReuse,
 		vpRunHupReuse,
+		vpRunTriggerBurst,
 	}
 }
 
@@ -27,6 +28,12 @@ func vcScenC11(t *vcTrial) {
 	switch r.intn(8) {
 	case 7:
 		vpRunHupReuse(t)
+	case 6:
+		if r.chance(50) {
+			vpRunTriggerBurst(t)
+		} else {
+			vpRunKernel(t, r.rng(1, 40), []string{"unix", "tcp"}[r.intn(2)])
+		}
 	case 0:
 		vpRunGrid(t, r.intn(2))
 	case 1:
@@ -1071,4 +1078,96 @@ func vpRunHupReuse(t *vcTrial) {
 	t.Stat("released_while_hangup_queued", queued)
 	t.Nontrivial = reused > 0 && queued > 0
 	t.Sig = fmt.Sprintf("hupreuse|slow=%d|vict=%d|reused=%v|queued=%v", nslow, nvict, reused > 0, queued > 0)
+}
+
+// ------------------------------------------------------------------ (d) Trigger under concurrency
+
+// vpRunTriggerBurst: "Trigger wakes a blocked loop" after bursts of concurrent Trigger calls that
+// race with a wake-up already in progress. Triggers may be coalesced, but once the callers are
+// quiet and the loop is blocked again a single Trigger must wake it - the flag that suppresses
+// redundant eventfd writes may not stay set with nothing to read.
+func vpRunTriggerBurst(t *vcTrial) {
+	r := t.R
+	t.P("variant", "trigger-burst")
+	pl, err := openPoll()
+	if err != nil {
+		t.Inconclusive("openPoll: %v", err)
+		return
+	}
+	dp := pl.(*defaultPoll)
+	waitErr := make(chan error, 1)
+	go func() { waitErr <- pl.Wait() }()
+	defer func() {
+		pl.Close()
+		select {
+		case <-waitErr:
+		case <-time.After(5 * time.Second):
+		}
+	}()
+	rounds := r.rng(10, 40)
+	wakes := 0
+	for round := 0; round < rounds; round++ {
+		n := r.rng(2, 6)
+		stop := int32(0)
+		roundMark := vcTraceMark()
+		var wg sync.WaitGroup
+		for i := 0; i < n; i++ {
+			wg.Add(1)
+			go func() {
+				defer wg.Done()
+				for atomic.LoadInt32(&stop) == 0 {
+					pl.Trigger()
+				}
+			}()
+		}
+		time.Sleep(time.Duration(r.rng(200, 4000)) * time.Microsecond)
+		atomic.StoreInt32(&stop, 1)
+		wg.Wait()
+		// "a blocked loop": wait until the wake-ups of the burst are completely handled - the flag is
+		// clear and the batch that handled the last wake-up has ended (a Trigger that lands between
+		// the loop's eventfd read and its clearing of the flag coincides with a wake-up in progress,
+		// it is not lost)
+		quiet := false
+		for dl := time.Now().Add(3 * time.Second); time.Now().Before(dl); {
+			if atomic.LoadUint32(&dp.trigger) == 0 {
+				var lastWake, lastEnd uint64
+				for _, e := range vcTraceSince(roundMark) {
+					if e.Obj != vcObjID(dp) {
+						continue
+					}
+					switch int(e.Point) {
+					case vpPollWake:
+						lastWake = e.Seq
+					case vpPollBatchEnd:
+						lastEnd = e.Seq
+					}
+				}
+				if lastEnd > lastWake && atomic.LoadUint32(&dp.trigger) == 0 {
+					quiet = true
+					break
+				}
+			}
+			time.Sleep(50 * time.Microsecond)
+		}
+		if !quiet {
+			t.Inconclusive("the loop did not become quiet after a trigger burst")
+			return
+		}
+		time.Sleep(time.Duration(r.rng(0, 300)) * time.Microsecond)
+		m := vcTraceMark()
+		pl.Trigger()
+		if !vcWaitPoint(m, vpPollWake, vcObjID(dp), 3*time.Second) {
+			if vcRunnerProgress(5, 5*time.Second) {
+				t.Violate("C11", "trigger_lost", "round %d: after a burst of concurrent Trigger calls from %d goroutines had ended, a single Trigger() returned but the blocked loop handled no wake-up within 3s (trigger flag = %d)", round, n, atomic.LoadUint32(&dp.trigger))
+			} else {
+				t.Inconclusive("wake not seen, canary without progress")
+			}
+			return
+		}
+		wakes++
+	}
+	t.Stat("trigger_burst_rounds", rounds)
+	t.Stat("single_triggers_woken", wakes)
+	t.Nontrivial = true
+	t.Sig = fmt.Sprintf("trigger-burst|rounds=%d", rounds/10)
 }
